@@ -25,6 +25,7 @@ inductive Kind where
   | stringValResultAlloc                 -- `std::string f()` (by value: a heap copy owned by the capsule), allocatable
   | vecStrIn | vecStrOut | vecStrInout   -- `std::vector<std::string> &` from / into `character(len=L) :: a(n)`
   | structArg                            -- a struct by value, pointer or reference (language c++: cast to the C++ struct)
+  | voidPtr                              -- `void *p` in every const / explicit-intent(in) spelling: `type(C_PTR), value`
   deriving Repr, DecidableEq
 
 /-- the eight statements that describe a heap `std::vector` in the context struct -/
@@ -132,6 +133,7 @@ def Kind.cpaths : Kind → Bool → List (List Nat)
   | .charResultAlloc, true | .stringResultAlloc, true | .stringValResultAlloc, true
   | .vecStrIn, true | .vecStrOut, true | .vecStrInout, true => []
   | .structArg, _ => []   -- language dependent block: theorem struct_entry
+  | .voidPtr, _ => [[1, 17, 31, 40], [1, 17, 31, 40, 50]]
   | .nativeOutAlloc, true | .vectorIn, true | .vectorOut, true | .vectorOutAlloc, true | .vectorInout, true
   | .vectorInoutAlloc, true | .vectorResult, true | .vectorResultAlloc, true | .ptrPtrOut, true
   | .resultPointer, true | .resultAlloc, true | .charArrayIn, true => []
@@ -172,6 +174,7 @@ def Kind.fpaths : Kind → List (List Nat)
   | .vecStrIn => [[2, 14, 32, 40, 50, 13]]
   | .vecStrOut | .vecStrInout => []
   | .structArg => [[2, 16, 30, 40], [2, 16, 31, 40], [2, 16, 32, 40], [2, 16, 31, 42], [2, 16, 32, 42]]
+  | .voidPtr => [[2, 17, 31, 40], [2, 17, 31, 40, 50]]
   | .native => [[2, 10, 30, 40], [2, 10, 31, 40], [2, 10, 31, 41], [2, 10, 31, 42], [2, 10, 32, 40], [2, 10, 32, 41],
                 [2, 10, 32, 42], [2, 10, 30, 40, 50], [2, 10, 31, 40, 50], [2, 10, 31, 41, 50], [2, 10, 31, 42, 50]]
 
@@ -180,7 +183,7 @@ def allKinds : List Kind :=
    .charResult, .stringResult, .charScalarResult, .native,
    .nativeOutAlloc, .vectorIn, .vectorOut, .vectorOutAlloc, .vectorInout, .vectorInoutAlloc, .vectorResult,
    .vectorResultAlloc, .ptrPtrOut, .resultPointer, .resultAlloc, .charArrayIn,
-   .charResultAlloc, .stringResultAlloc, .stringValResultAlloc, .vecStrIn, .vecStrOut, .vecStrInout, .structArg]
+   .charResultAlloc, .stringResultAlloc, .stringValResultAlloc, .vecStrIn, .vecStrOut, .vecStrInout, .structArg, .voidPtr]
 
 /-- one kind is an instance of its documented shape in the table of language `cxx` -/
 def kindOK (cxx : Bool) (k : Kind) : Bool :=
@@ -1245,6 +1248,57 @@ theorem struct_addr_of_pointer_undefined (fields : List Int) (lib : Val → Val)
     runArgWith [(15, .int 1), (16, .int 1)] ⟨false, [], []⟩ ⟨[], 2, false, [.structCast 6 1], []⟩ true (.stru fields) (.arg lib)
       = .oob := by
   run_simp [List.foldl]
+
+/-! ### `void *` arguments: `type(C_PTR), value` in every const / intent spelling -/
+
+/-- **the VALUE rule** of `check_arg_attrs`, full characterisation for declarations without `+assumedtype`
+    and without an explicit `+value`: the dummy gets VALUE exactly for a non-array by-value declaration and
+    for a single-pointer `void *` - whatever its const-ness and its explicit intent -/
+theorem value_attr_rule (d : ValueD) (h1 : d.assumedtype = false) (h2 : d.given = none) :
+    valueAttr d = .ok (some true) ↔
+      ((d.isIndirect = false ∧ d.isArray = false) ∨ (d.isIndirect = true ∧ d.isVoid = true ∧ d.nptr = 1)) := by
+  unfold valueAttr
+  cases hi : d.isIndirect <;> cases ha : d.isArray <;> cases hv : d.isVoid <;> simp [h1, h2]
+
+/-- an explicit `+value` / `+value(false)` is kept as written -/
+theorem value_attr_given (d : ValueD) (g : Bool) (h1 : d.assumedtype = false) (h2 : d.given = some g) :
+    valueAttr d = .ok (some g) := by
+  simp [valueAttr, h1, h2]
+
+/-- **every spelling of `void *`** (`void *p`, `const void *p`, `void *p +intent(in)`, `const void *p
+    +intent(in)`, any other intent code): VALUE -/
+theorem void_pointer_by_value (isConst : Bool) (intent : Nat) (arr : Bool) :
+    valueAttr ⟨false, none, true, true, 1, arr, isConst, intent⟩ = .ok (some true) := by
+  simp [valueAttr]
+
+/-- the void entries are the default blocks, so a `void *` argument with the attribute the rule gives it
+    travels like a by-value scalar: the library receives the very address (and the memory behind it) that the
+    Fortran caller put into its `type(C_PTR)`; nothing is copied back -/
+theorem void_pointer_pass_through (isConst : Bool) (intent : Nat) (var a : Nat) (els : List Int) (lib : Val → Val) :
+    runArg Kind.voidPtr.fspec (Kind.voidPtr.cspec false) false
+        (cptrAtBoundary (valueAttr ⟨false, none, true, true, 1, false, isConst, intent⟩ == .ok (some true)) var (.ref a els))
+        (.arg lib)
+      = .ok ⟨some (.ref a els), .ref a els, 0⟩ := by
+  rw [void_pointer_by_value]
+  run_simp [cptrAtBoundary]
+
+/-- the seeded class of defect as a model fact: a `type(C_PTR)` dummy WITHOUT VALUE delivers the address of
+    the caller's variable - a different address whenever the variable is not stored at the address it holds -/
+theorem void_pointer_without_value_wrong (var a : Nat) (els : List Int) (lib : Val → Val) (h : var ≠ a) :
+    ∃ got, runArg Kind.voidPtr.fspec (Kind.voidPtr.cspec false) false (cptrAtBoundary false var (.ref a els)) (.arg lib)
+        = .ok ⟨some got, got, 0⟩ ∧ got ≠ .ref a els := by
+  refine ⟨.ref var [(a : Int)], ?_, ?_⟩
+  · run_simp [cptrAtBoundary]
+  · intro hc
+    injection hc with h1 _
+    exact h h1
+
+example : (7 : Nat) ≠ 4242 := by decide
+example : valueAttr ⟨false, none, true, false, 1, false, true, 40⟩ = .ok none ∧       -- `const int *p +intent(in)`
+    valueAttr ⟨false, none, true, true, 2, false, false, 0⟩ = .ok none ∧              -- `void **p`
+    valueAttr ⟨false, none, false, false, 0, true, false, 0⟩ = .ok none ∧             -- `int x[10]`
+    valueAttr ⟨false, none, false, false, 0, false, false, 0⟩ = .ok (some true) ∧     -- `int x`
+    valueAttr ⟨true, some true, true, true, 1, false, false, 0⟩ = .oob := by decide  -- `+assumedtype+value` raises
 
 /-! ## non-vacuity: concrete instances of the hypotheses used above -/
 
